@@ -4,7 +4,7 @@ CONSTANTS
  MaxTypeBits = 10
  MaxCards = 512
  MaxDkgPlayers = 256
- Fams = {"stack", "state"}
+ Fams = {"stack"}
  P <- PThorough
 INVARIANTS Theorems Emit
 CHECK_DEADLOCK FALSE
